@@ -12,6 +12,7 @@ A, B = 20000, 60
 EXPONENT_LIMIT = 2.2
 
 
+CAP = 5000      # steps per unit of size, any family
 LIN = 2500      # steps per input byte allowed to the byte parsers (measured: BoC ~ 90, TL ~ 40 per byte)
 
 
@@ -19,7 +20,9 @@ def limit(s, linear=False):
     """step budget for input size s.  The byte parsers (BoC, TL: 'bounded by the length of the input') additionally get a linear cap, so that on
     a long input a count-driven loop is cut after LIN*s steps instead of B*s^2 (which a run would have to wait for)."""
     q = A + B * s * s
-    return min(q, A + LIN * s) if linear else q
+    # every family is additionally capped at CAP steps per unit of size (measured: at most ~200 per unit on linear families; a quadratic algorithm with a small
+    # constant still fits for the sizes used here), so that exponential work on an input of a few thousand units is cut after seconds, not after B*s^2 steps
+    return min(q, A + LIN * s) if linear else min(q, A + CAP * s)
 
 
 def dag_size(root):
@@ -451,6 +454,23 @@ def dict_part(R, S, rng, quick):
             S.run(fam, 'HashMap.parse', n + e, lambda: HashMap.parse(cell.begin_parse(), w), W, expect='ok')
             S.run(fam, 'load_dict', n + e, lambda: bridge.lib().Builder().store_dict(cell).end_cell().begin_parse().load_dict(w), W, expect='ok')
             R.case(mon.fp('dictbarren', fam, d))
+    # many real entries (more than 256, more than 1000) parsed before a shared leafless ladder is reached
+    for nkeys, d in ([(300, 40), (1200, 30)] if quick else [(257, 24), (300, 40), (1200, 30), (5000, 60)]):
+        pruned_leaf = rc.make_pruned(rc.RC('1'), 1)
+        barren = pruned_leaf
+        for i in range(d):
+            barren = rc.RC('00', (barren, barren))
+        keys = {dictref.u(k, d): ('1' * 8, []) for k in rng.sample(range(1 << min(d, 30)), nkeys)}
+        left = dictref.encode(keys, d)
+        c = rc.RC('00', (left, barren))                     # key width d + 1: entries under bit 0, the leafless ladder under bit 1
+        cell = bridge.to_lib(c, 'builder')
+        n, e = dag_size(c)
+        W = {'entries': nkeys, 'ladder_depth': d, 'paths': 2 ** d}
+        got = S.run('dict-many-entries-before-barren', 'parse_hashmap', n + e, lambda: parse_hashmap(cell.begin_parse(), d + 1), W, expect='ok')
+        if got is not None:
+            R.check(len(got) == nkeys, 'dict-many-entries-before-barren-leaves', f'{len(got)} leaves returned, {nkeys} in the tree', W)
+        S.run('dict-many-entries-before-barren', 'load_dict', n + e, lambda: bridge.lib().Builder().store_dict(cell).end_cell().begin_parse().load_dict(d + 1), W, expect='ok')
+        R.case(mon.fp('dictmany', nkeys, d))
     # fuzzed dictionary cells: random bits/refs fed to the parsers (must stop: raise or return)
     for i in range(100 if quick else 2000):
         root = gen.rand_dag(rng, rng.choice([1, 3, 10, 30]), max_bits=40)
